@@ -430,6 +430,21 @@ theorem no_stale_handler_after_break :
     mechTags wStale 60 = some [1, 3] ∧ mechResult wStale 60 = some (.uncaught (.str (.lit 0))) := by
   decide
 
+/-- `break <value>` inside a try block in a loop, the value expression raises (a call two frames
+deep): the error is still caught by that try — the `TryEnd`s that `break` emits come *after* the
+value's code. Guide and mechanism agree; the catch marker `2` is in both traces. -/
+def wBreakValue : Prog :=
+  { defs := [{ nparams := 1, nlocals := 1, body := .seq [.emit 7 none, .throw s0] }]
+    mainLocals := 2
+    main := .seq [.forList 0 two (.try_ (.seq [.emit 1 none, .brkV (.call 0 [.lit (.int 0)]), .emit 8 none])
+        [(none, 1, .emit 2 none)] none),
+      .emit 3 none] }
+
+set_option maxRecDepth 8192 in
+theorem break_value_error_is_caught :
+    guideTags wBreakValue 40 = [1, 7, 2, 1, 7, 2, 3] ∧ mechTags wBreakValue 80 = some [1, 7, 2, 1, 7, 2, 3] := by
+  decide
+
 /-- The code emitted for `break` inside `k` open try blocks of the loop body — `k` × `TryEnd`, then
 the jump — leaves the loop with the frame's catch stack exactly as it was when the loop body's
 first try block was entered: the `k` entries pushed since are gone, nothing else is touched. -/
